@@ -364,6 +364,7 @@ def gen_program(rng, focus):
         ops.append(['solve_exit', rng.choice([8, 15]), None, rng.choice(['callback', 'cost']), rng.randint(1, 12)])
     cfg['savefreq'] = rng.random() < 0.6
     cfg['ops'] = ops
+    if rng.random() < 0.15: cfg['extra_args'] = [rng.choice([0.5, -1.0, 3.0])]
     return cfg
 
 
@@ -434,11 +435,23 @@ def run_program(cfg, obs, focus, tmpdir):
     scale = [1.0]
     base = led.probe
     raw0 = led.raw
+    xa = tuple(cfg['extra_args']) if cfg.get('extra_args') else None       # cost of the form cost(x, *ExtraArgs)
     def objective_factory():
         sc = scale[0]
+        if xa:
+            def f(x, *args, sc=sc):
+                if args != xa:
+                    obs.check(False, 'c04:the cost is called with the configured ExtraArgs', received=[repr(a) for a in args], configured=list(xa), solver=cfg['solver'])
+                    return sc * raw0(x)
+                return sc * raw0(x) + args[0]
+            led.probe.f = f; led.probe.always_args = True
+            return (lambda x, *args: base(x, *args))
         led.probe.f = (lambda x, sc=sc: sc * raw0(x))
         return (lambda x: base(x))
-    s.SetObjective(objective_factory())
+    def set_objective():
+        if xa: s.SetObjective(objective_factory(), ExtraArgs=xa); obs.event('cost_with_extra_args')
+        else: s.SetObjective(objective_factory())
+    set_objective()
     savefile = os.path.join(tmpdir, 'periodic.pkl')
     if cfg.get('savefreq'): s.SetSaveFrequency(1, savefile)
     kw = K.step_kwargs(cfg)
@@ -529,7 +542,7 @@ def run_program(cfg, obs, focus, tmpdir):
             elif k == 'objective':
                 if op[1] == 'new':
                     scale[0] *= 2.0
-                    s.SetObjective(objective_factory()); nreconf += 1
+                    set_objective(); nreconf += 1
                     led.segment_start = len(s.energy_history); led.reconfigured = True; led.dirty = True
                 else:
                     s.SetObjective(None)
